@@ -64,6 +64,77 @@ def corrupt_double_drop(run):
     return None
 
 
+def corrupt_view(run):
+    """one element of one twin view (as_mut_slice / raw pointer / get_unchecked / iter_mut ...) changed"""
+    for i, e in enumerate(run):
+        vs = (e.get("post") or {}).get("views") or []
+        for v in vs:
+            if v and isinstance(v[0], list) and len(v[0]) == 2:
+                v[0] = [v[0][0] + 1000, v[0][1]]
+                return i
+    return None
+
+
+def corrupt_alt_len(run):
+    """a twin of len() (len_usize / is_empty / statistics) disagrees with the content"""
+    for i, e in enumerate(run):
+        a = (e.get("post") or {}).get("alt_len")
+        if a:
+            a[-1] = a[-1] + 1
+            return i
+    return None
+
+
+def corrupt_field(op, field, fn, cond=None):
+    def m(run):
+        for i, e in enumerate(run):
+            if e.get("op") == op and field in e and (cond is None or cond(e)):
+                e[field] = fn(e[field])
+                return i
+        return None
+    return m
+
+
+def corrupt_post_content_of(op):
+    def m(run):
+        for i, e in enumerate(run):
+            c = (e.get("post") or {}).get("c")
+            if e.get("op") == op and e.get("ok", True) and c:
+                c[0] = [c[0][0] + 1000, c[0][1]]
+                return i
+        return None
+    return m
+
+
+def corrupt_str_view(run):
+    """a twin of get(i) (get_by_id) shows another string"""
+    for i, e in enumerate(run):
+        for v in (e.get("post") or {}).get("views") or []:
+            for x in v:
+                if x:
+                    x[0] = (x[0] + 1) % 256
+                    return i
+    return None
+
+
+def corrupt_new_empty(run):
+    """the sibling vector carved from the same allocator claims to hold an element"""
+    for i, e in enumerate(run):
+        if e.get("op") == "new_empty" and e.get("ok"):
+            e["post"]["len"] = 1
+            return i
+    return None
+
+
+def corrupt_full_flag(run):
+    for i, e in enumerate(run):
+        p = e.get("post") or {}
+        if p.get("has_full"):
+            p["full"] = not p["full"]
+            return i
+    return None
+
+
 def corrupt_pop_result(run):
     for i, e in enumerate(run):
         if e.get("op") in ("pop", "pop_front") and e.get("r"):
@@ -212,19 +283,22 @@ def run(ctx):
                            extra={"kind": kind, "in": os.path.join(w, "beh-%s.ndjson" % name), "sample": sample, "threads": 4,
                                   "per_key": 4 if th else 2, "max_mismatch": 120 if th else 30})
 
-    with cf.ThreadPoolExecutor(max_workers=6) as ex:
+    with cf.ThreadPoolExecutor(max_workers=7) as ex:
         fb1 = ex.submit(lambda: ctx.harness(BIN, "drive", "b1", timeout=3000))
+        # recorded witnesses of findings that end the process (C10-KF8): each in a child of its own
+        fw = ex.submit(lambda: ctx.harness(BIN, "witness", "witness", extra={"kind": "witness"}))
         fb2 = {name: ex.submit(do_replay, name) for name in gens}
         b1 = fb1.result()
+        wit = fw.result()
         b2 = {name: f.result() for name, f in fb2.items()}
 
     # one file per subject with recorded deviations (a rejection re-validates only that subject), the others in chunks
     merged = os.path.join(w, "merged")
     os.makedirs(merged, exist_ok=True)
-    DEV_FAMS = ("valvec32", "autogrow", "fixedq", "advanced", "zo", "sortable")
+    DEV_FAMS = ("advanced", "zo", "fastvec_u64", "fastvec_u8", "fastvec_zst", "valvec32_zst", "cachevec_zst")
 
     def merge(prefix):
-        files = files_of(b1, prefix)
+        files = files_of(b1, prefix) + files_of(wit, prefix)
         for s in b2.values():
             files += files_of(s, prefix)
         per_subject, clean = {}, []
@@ -276,6 +350,25 @@ def run(ctx):
          "push refused by the full fixed-capacity queue reported as accepted"),
         (T_STR, fs, corrupt_string_byte, "one byte of a stored string changed"),
         (T_STR, fs, corrupt_sorted_view, "two entries of the sorted view swapped"),
+        # event kinds / observation fields bound in the coverage round
+        (T_SEQ, fv, corrupt_view, "one element of a twin reader's view (as_mut_slice / raw pointer / get_unchecked ...) changed"),
+        (T_SEQ, os.path.join(b1d, "seq-valvec32_new-0000.ndjson"), corrupt_alt_len, "a twin of len() (len_usize / is_empty) off by one"),
+        (T_SEQ, fv, corrupt_field("resize_with", "xs", lambda xs: xs[1:], lambda e: e.get("xs")), "resize_with: one element the closure produced is not reported"),
+        (T_SEQ, fv, corrupt_post_content_of("new_sized"), "with_size: one element of the new vector changed"),
+        (T_SEQ, os.path.join(b1d, "seq-fastvec_u64_new-0000.ndjson"), corrupt_field("copy_from", "xs", lambda xs: xs + [[7777, 0]], lambda e: e.get("ok")),
+         "copy_from_slice_fast: the source reported differs from what the vector now holds"),
+        (T_SEQ, os.path.join(b1d, "seq-mmapvec_cap_1_x2-0000.ndjson"), corrupt_field("compare", "r", lambda r: not r, lambda e: e.get("ok")),
+         "compare_range_simd: the answer flipped"),
+        (T_SEQ, os.path.join(b1d, "seq-mmapvec_read_only_open-0000.ndjson"), corrupt_post_content_of("adopt"), "MmapVec::open: one element of the reopened content changed"),
+        (T_SEQ, os.path.join(b1d, "seq-bumpvec_cap_6-0000.ndjson"), corrupt_new_empty, "second BumpVec in the same allocator: reported non-empty at birth"),
+        (T_DQ, os.path.join(b1d, "dq-fixedq_3-0000.ndjson"), corrupt_full_flag, "is_full() flipped"),
+        (T_DQ, fq, corrupt_alt_len, "a twin of len() of a queue (is_empty / performance_stats) off by one"),
+        (T_STR, os.path.join(b1d, "str-fixedlen_64-0000.ndjson"), corrupt_field("count_prefix", "r", lambda r: r + 1), "count_prefix off by one"),
+        (T_STR, os.path.join(b1d, "str-zo_from_sorted-0000.ndjson"), corrupt_field("range", "r", lambda r: r[1:], lambda e: len(e.get("r", [])) > 0),
+         "range(): the first string of the answer missing"),
+        (T_STR, os.path.join(b1d, "str-bitpacked32_new-0000.ndjson"), corrupt_field("extend", "r", lambda r: [r[0] + 1] + r[1:], lambda e: e.get("r")),
+         "extend(): a returned index off by one"),
+        (T_STR, fs, corrupt_str_view, "get_by_id: one byte of one string differs from get()"),
     ]
     def crash_selftest():
         """a child process that dies by a signal must surface as a `crash` event that the contract rejects"""
